@@ -60,20 +60,25 @@ def param_atoms(p):
     return out
 
 
-def check_alignment(terms, batched, rows="B"):
+def check_alignment(terms, batched, rows="B", per_term=None):
+    """every occurrence of an equation parameter in a term depends on exactly the row axis of its own (parameter /
+    observation) batch if its key is batched for that term, and on no row axis otherwise.
+    per_term: {term: (batched keys, rows)} overrides for individual terms (e.g. the observation term)"""
     n = 0
     for t, v in terms.items():
         p = scalar_of(v, t)
+        b_t, rows_t = (per_term or {}).get(t, (batched, rows))
         for a in param_atoms(p):
             key, deps = a[1], set(a[3])
             if key not in EQ_KEYS:
                 continue
-            is_row = rows in deps
-            if key in batched and not is_row:
-                raise Violation(f"{t}/{key}", f"term {t} uses the caller's value of the batched parameter {key!r}",
-                                f"row i of the batch for sample i")
-            if key not in batched and is_row:
-                raise Violation(f"{t}/{key}", f"term {t} uses a per-sample value for the unbatched parameter {key!r}",
+            row_deps = {x for x in deps if x in ("B", "I", "Bb", "S")}
+            want = {rows_t} if key in b_t else set()
+            if row_deps != want:
+                if key in b_t:
+                    raise Violation(f"{t}/{key}", f"term {t} uses parameter {key!r} with row dependency {sorted(row_deps) or 'none (the caller value)'}",
+                                    f"row i of its batch (rows {rows_t}) for sample i")
+                raise Violation(f"{t}/{key}", f"term {t} uses a per-row value (rows {sorted(row_deps)}) for parameter {key!r}",
                                 "the caller's (unbatched) value")
             n += 1
     return n
@@ -109,6 +114,21 @@ def run(chk):
                 n = check_alignment(terms, pk)
                 return f"{n} parameter occurrences aligned"
             chk.run("C12.R1", SSITE[eq_type], cfg, go_sys, construct=f"alignment[system {eq_type}]")
+        # a batch that carries both a parameter batch and observations with observed parameters: every term but the
+        # observation term ignores the observed parameters
+        for pk in ((), ('nu',)):
+            for op in (('nu',), ('th',)):
+                cfg = {"loss": eq_type, "batched": list(pk), "observed": list(op), "terms": list(names)}
+
+                def go_mix(eq_type=eq_type, names=names, pk=pk, op=op):
+                    S = SingleLoss(E, eq_type, 'PINN', d=2, m_u=1, terms=names, eq_keys=EQ_KEYS)
+                    total, terms = S.evaluate(param_keys=pk, observed_params=op)
+                    rows_obs = "B" if pk else "I"
+                    n = check_alignment(terms, pk, rows="B", per_term={'observations': (tuple(set(pk) | set(op)), rows_obs)})
+                    return f"{n} parameter occurrences aligned"
+                chk.run("C12.R1", SITE[eq_type] + " (parameter batch + observed parameters)", cfg, go_mix,
+                        construct=f"alignment with observations[{eq_type}]")
+
         # observed parameters are per-row too
         for op in (('nu',), ('th',)):
             cfg = {"loss": eq_type, "observed": list(op)}
